@@ -116,10 +116,14 @@ class Universe:
         for ncomp in (1, 2):
             for i in range(tape.randint(2, 3, f"pool{ncomp}.n")):
                 ds = gen_dataset(tape, ncomp=ncomp, nmin=14, nmax=40, allow_extra=False, tag=f"P{ncomp}{i}")
-                ds.coordinates = self.guard.add_all(ds.coordinates)
-                ds.data = self.guard.add_all(ds.data)
+                # most datasets are read-only; some stay writable so that a call that scribbles on its
+                # arguments "temporarily" (and restores them) is visible when it is interrupted
+                ro = not tape.coin(0.35, f"P{ncomp}{i}.writable")
+                ds.desc["readonly"] = ro
+                ds.coordinates = self.guard.add_all(ds.coordinates, ro)
+                ds.data = self.guard.add_all(ds.data, ro)
                 if ds.weights is not None:
-                    ds.weights = self.guard.add_all(ds.weights)
+                    ds.weights = self.guard.add_all(ds.weights, ro)
                 self.datasets[ncomp].append(ds)
         rs = np.random.RandomState(tape.subseed("queries"))
         self.queries = [self.guard.add_all((rs.uniform(5, 95, m), rs.uniform(-55, 35, m))) for m in (7, 11)]
@@ -243,7 +247,7 @@ class History:
             self.flags["refit_other_data"] = True
             self.probe("refit_on_different_data")
         if mode == "interrupt":
-            k = self.tape.draw(200, "fit.k")
+            k = self.tape.draw(self.tape.pick([10, 30, 90, 250], "fit.krange"), "fit.k")
             self.trace.append(f"L{li}.{name}(D{j}) interrupted@{k}")
             done = self.interrupted(live, call, k, f"L{li}.{name}(D{j})")
             if not done:
@@ -558,76 +562,85 @@ class History:
         u = self.u
         ds = u.datasets[1][self.tape.draw(len(u.datasets[1]), "fn.ds")]
         other = u.datasets[1][(u.datasets[1].index(ds) + 1) % len(u.datasets[1])]
-        c, d, w = ds.coordinates, ds.data[0], (ds.weights[0] if ds.weights is not None else None)
         region = (0.0, 100.0, -60.0, 40.0)
         name = self.tape.pick(FUNCTIONS, "fn.name")
         g = u.guard
-        interruptible = True
-        if name == "variance_to_weights":
-            var = g.add(np.where(np.arange(d.size) % 5 == 0, np.nan, np.abs(np.ravel(d)) * 0.01 + 1e-3).reshape(d.shape))
-            thunk = lambda: vd.variance_to_weights(var)  # noqa: E731
-        elif name == "variance_to_weights_tuple":
-            var = g.add(np.abs(np.ravel(d)) + 0.5)
-            var2 = g.add(np.where(np.arange(d.size) % 3 == 0, 0.0, 2.0))
-            thunk = lambda: vd.variance_to_weights((var, var2))  # noqa: E731
-        elif name == "block_split":
-            thunk = lambda: vd.block_split(c, spacing=25.0)  # noqa: E731
-        elif name == "inside":
-            thunk = lambda: vd.inside(c, (20.0, 70.0, -30.0, 20.0))  # noqa: E731
-        elif name == "get_region":
-            thunk = lambda: vd.get_region(c)  # noqa: E731
-        elif name == "pad_region":
-            thunk = lambda: vd.pad_region(region, (5, 10))  # noqa: E731
-        elif name == "grid_coordinates":
-            pix = bool(self.ops % 2)
-            thunk = lambda: vd.grid_coordinates(region, spacing=(20, 25), extra_coords=3.0, pixel_register=pix)  # noqa: E731
-        elif name == "profile_coordinates":
-            thunk = lambda: vd.profile_coordinates((1.0, 2.0), (9.0, -4.0), size=7)  # noqa: E731
-        elif name == "rolling_window":
-            thunk = lambda: vd.rolling_window(c, size=50.0, spacing=25.0, region=region)  # noqa: E731
-        elif name == "expanding_window":
-            thunk = lambda: vd.expanding_window(c, center=(50.0, -10.0), sizes=[30.0, 60.0])  # noqa: E731
-        elif name == "longitude_continuity":
-            lon = g.add(c[0] * 3.6)
-            thunk = lambda: vd.longitude_continuity((lon, c[1]), (0.0, 360.0, -60.0, 40.0))  # noqa: E731
-        elif name == "median_distance":
-            thunk = lambda: vd.median_distance(c, k_nearest=2)  # noqa: E731
-        elif name == "distance_mask":
-            gc = g.add_all(vd.grid_coordinates(region, spacing=20.0))
-            thunk = lambda: vd.distance_mask(c, 15.0, coordinates=gc)  # noqa: E731
-        elif name == "convexhull_mask":
-            gc = g.add_all(vd.grid_coordinates(region, spacing=20.0))
-            thunk = lambda: vd.convexhull_mask(c, coordinates=gc)  # noqa: E731
-        elif name == "make_xarray_grid":
-            gc = g.add_all(vd.grid_coordinates(region, spacing=25.0))
-            gd = g.add(gc[0] * 2 - gc[1])
-            thunk = lambda: vd.make_xarray_grid(gc, gd, data_names="z")  # noqa: E731
-        elif name == "grid_to_table":
-            gc = vd.grid_coordinates(region, spacing=25.0)
-            grid = vd.make_xarray_grid(gc, gc[0] * 2 - gc[1], data_names="z")
-            snap = grid.z.values.copy()
-            thunk = lambda: vd.grid_to_table(grid)  # noqa: E731
-        elif name == "maxabs":
-            thunk = lambda: vd.maxabs(d, other.data[0])  # noqa: E731
-        elif name == "project_region":
-            thunk = lambda: vd.project_region(region, lambda x, y: (x * 2.0, y * 0.5))  # noqa: E731
-        elif name == "project_grid":
-            gc = vd.grid_coordinates(region, spacing=25.0)
-            grid = vd.make_xarray_grid(gc, gc[0] * 2 - gc[1], data_names="z").z
-            snap = grid.values.copy()
-            thunk = lambda: vd.project_grid(grid, lambda x, y, inverse=False: (x * 0.5, y * 0.5) if not inverse else (x * 2.0, y * 2.0))  # noqa: E731
-            interruptible = False
-        elif name in ("blockreduce", "blockmean", "blockmean_weights", "blockmean_uncertainty"):
+        if name in ("blockreduce", "blockmean", "blockmean_weights", "blockmean_uncertainty"):
             self.block_object_history(name, ds, other)
             return
-        elif name == "checkerboard":
-            thunk = lambda: vd.synthetic.CheckerBoard(region=region, w_east=30.0).predict(c)  # noqa: E731
-        elif name == "check_fit_input":
-            from verde.base.utils import check_fit_input
+        # same-shape, different-content variant of the dataset: a call on it between two identical
+        # calls must not disturb what the first one returned (scratch buffers, caches keyed by shape)
+        alt_c = g.add_all(tuple(np.ascontiguousarray(np.ravel(x)[::-1]).reshape(x.shape) * 0.9 + 3.0 for x in ds.coordinates))
+        alt_d = g.add(np.ascontiguousarray(np.ravel(ds.data[0])[::-1]).reshape(ds.data[0].shape) * -1.5)
+        pix = bool(self.ops % 2)
+        interruptible = name != "project_grid"
+        snap_grid = []
 
-            thunk = lambda: check_fit_input(c, d, w)  # noqa: E731
-        else:
+        def make(c, d, k):
+            """k = 0 for the real call, 1 for the variant (used where an argument is not an array)."""
+            if name == "variance_to_weights":
+                var = g.add(np.where(np.arange(d.size) % 5 == 0, np.nan, np.abs(np.ravel(d)) * 0.01 + 1e-3).reshape(d.shape))
+                return lambda: vd.variance_to_weights(var)
+            if name == "variance_to_weights_tuple":
+                var = g.add(np.abs(np.ravel(d)) + 0.5)
+                var2 = g.add(np.where(np.arange(d.size) % 3 == 0, 0.0, 2.0 + k))
+                return lambda: vd.variance_to_weights((var, var2))
+            if name == "block_split":
+                return lambda: vd.block_split(c, spacing=25.0)
+            if name == "inside":
+                return lambda: vd.inside(c, (20.0, 70.0, -30.0, 20.0))
+            if name == "get_region":
+                return lambda: vd.get_region(c)
+            if name == "pad_region":
+                return lambda: vd.pad_region(region, (5 + k, 10))
+            if name == "grid_coordinates":
+                return lambda: vd.grid_coordinates(region, spacing=(20, 25), extra_coords=3.0 + k, pixel_register=pix)
+            if name == "profile_coordinates":
+                return lambda: vd.profile_coordinates((1.0 + k, 2.0), (9.0, -4.0), size=7)
+            if name == "rolling_window":
+                return lambda: vd.rolling_window(c, size=50.0, spacing=25.0, region=region)
+            if name == "expanding_window":
+                return lambda: vd.expanding_window(c, center=(50.0, -10.0), sizes=[30.0, 60.0])
+            if name == "longitude_continuity":
+                lon = g.add(c[0] * 3.6)
+                return lambda: vd.longitude_continuity((lon, c[1]), (0.0, 360.0, -60.0, 40.0))
+            if name == "median_distance":
+                return lambda: vd.median_distance(c, k_nearest=2)
+            if name == "distance_mask":
+                gc = g.add_all(vd.grid_coordinates(region, spacing=20.0))
+                return lambda: vd.distance_mask(c, 15.0, coordinates=gc)
+            if name == "convexhull_mask":
+                gc = g.add_all(vd.grid_coordinates(region, spacing=20.0))
+                return lambda: vd.convexhull_mask(c, coordinates=gc)
+            if name == "make_xarray_grid":
+                gc = g.add_all(vd.grid_coordinates(region, spacing=25.0))
+                gd = g.add(gc[0] * (2 + k) - gc[1])
+                return lambda: vd.make_xarray_grid(gc, gd, data_names="z")
+            if name == "grid_to_table":
+                gc = vd.grid_coordinates(region, spacing=25.0)
+                grid = vd.make_xarray_grid(gc, gc[0] * (2 + k) - gc[1], data_names="z")
+                snap_grid.append((grid.z, grid.z.values.copy()))
+                return lambda: vd.grid_to_table(grid)
+            if name == "maxabs":
+                return lambda: vd.maxabs(d, other.data[0])
+            if name == "project_region":
+                return lambda: vd.project_region(region, lambda x, y: (x * (2.0 + k), y * 0.5))
+            if name == "project_grid":
+                gc = vd.grid_coordinates(region, spacing=25.0)
+                grid = vd.make_xarray_grid(gc, gc[0] * (2 + k) - gc[1], data_names="z").z
+                snap_grid.append((grid, grid.values.copy()))
+                return lambda: vd.project_grid(grid, lambda x, y, inverse=False: (x * 0.5, y * 0.5) if not inverse else (x * 2.0, y * 2.0))
+            if name == "checkerboard":
+                return lambda: vd.synthetic.CheckerBoard(region=region, w_east=30.0).predict(c)
+            if name == "check_fit_input":
+                from verde.base.utils import check_fit_input
+
+                w = ds.weights[0] if ds.weights is not None else None
+                return lambda: check_fit_input(c, d, w)
             raise HarnessError(name)
+
+        thunk = make(ds.coordinates, ds.data[0], 0)
+        variant = make(alt_c, alt_d, 1)
         desc = f"{name}(D{u.datasets[1].index(ds)})"
         self.trace.append(desc)
         if interruptible and self.tape.coin(0.2, "fn.interrupt"):
@@ -646,13 +659,16 @@ class History:
         state = np.random.get_state()
         first = self.must(desc, thunk)
         self.check_rng_untouched(state, desc)
+        self.u.remember(desc, first)
+        self.must(desc + " [same-shape variant]", variant)
+        self.u.check_aliasing(desc + " followed by the same call on other same-shape arguments")
         again = self.must(desc, thunk)
         ok, dd = same_result(again, first, rtol=RTOL_REPEAT)
         if not ok:
-            raise Violation("not-repeatable", f"{desc}: calling it twice with the same arguments gave different results (rel. diff {dd:.3g})")
-        if name in ("grid_to_table", "project_grid") and not np.array_equal(snap, (grid.z if name == "grid_to_table" else grid).values):
-            raise Violation("argument-array-modified", f"{desc}: the grid passed in was modified")
-        self.u.remember(desc, first)
+            raise Violation("not-repeatable", f"{desc}: calling it again with the same arguments (after a call with other arguments) gave a different result (rel. diff {dd:.3g})")
+        for arr, snap in snap_grid:
+            if not np.array_equal(snap, arr.values):
+                raise Violation("argument-array-modified", f"{desc}: the grid passed in was modified")
         self.last_query = (desc, thunk, first, None)
         self.after(desc)
 
